@@ -40,14 +40,18 @@ type pkgInfo struct {
 	funcs   map[string]*ast.FuncDecl
 	tracked map[string]bool // conflict-relevant variables
 	retTnt  map[string]bool // functions returning aliases of tracked state
+	syncVar map[string]bool // variables of a sync / sync/atomic type: synchronisation objects, not data
+	extVar  map[string]bool // variables of a third-party type (the logger): method calls on them are reads of the variable
 }
 
 type point struct {
-	ID   int    `json:"id"`
-	Pkg  string `json:"pkg"`
-	File string `json:"file"`
-	Line int    `json:"line"`
-	Vars string `json:"vars"`
+	ID     int      `json:"id"`
+	Pkg    string   `json:"pkg"`
+	File   string   `json:"file"`
+	Line   int      `json:"line"`
+	Vars   string   `json:"vars"`
+	Reads  []string `json:"reads,omitempty"`  // package-level variables the statement reads (directly or through a local alias)
+	Writes []string `json:"writes,omitempty"` // package-level variables the statement writes
 }
 
 func main() {
@@ -93,7 +97,7 @@ func run(repo, out string) error {
 			if rel != "." {
 				imp = modPath + "/" + filepath.ToSlash(rel)
 			}
-			pi := &pkgInfo{dir: rel, imp: imp, name: name, files: pk.Files, vars: map[string]bool{}, funcs: map[string]*ast.FuncDecl{}, tracked: map[string]bool{}, retTnt: map[string]bool{}}
+			pi := &pkgInfo{dir: rel, imp: imp, name: name, files: pk.Files, vars: map[string]bool{}, funcs: map[string]*ast.FuncDecl{}, tracked: map[string]bool{}, retTnt: map[string]bool{}, syncVar: map[string]bool{}, extVar: map[string]bool{}}
 			pkgs = append(pkgs, pi)
 		}
 		return nil
@@ -110,9 +114,17 @@ func run(repo, out string) error {
 				case *ast.GenDecl:
 					if d.Tok == token.VAR {
 						for _, s := range d.Specs {
-							for _, n := range s.(*ast.ValueSpec).Names {
+							vs := s.(*ast.ValueSpec)
+							kind := declKind(f, vs)
+							for _, n := range vs.Names {
 								if n.Name != "_" {
 									p.vars[n.Name] = true
+									switch kind {
+									case "sync":
+										p.syncVar[n.Name] = true
+									case "ext":
+										p.extVar[n.Name] = true
+									}
 								}
 							}
 						}
@@ -194,6 +206,7 @@ func run(repo, out string) error {
 					continue
 				}
 				tnt := localTaint(fd.Body, p, imports)
+				curSrc = taintSources(fd.Body, p, imports, tnt)
 				instrBlock(fset, fd.Body, p, imports, tnt, &nextID, &points, fn, &inserted)
 			}
 			syncUsed := redirectSync(f)
@@ -519,6 +532,256 @@ func aliasing(e ast.Expr) bool {
 	return true
 }
 
+// declKind classifies a package-level variable by the packages its declared type / initialiser names: "sync" for
+// sync and sync/atomic types, "ext" for third-party (non-standard-library, non-library) types, "" otherwise.
+func declKind(f *ast.File, vs *ast.ValueSpec) string {
+	imp := map[string]string{}
+	for _, is := range f.Imports {
+		path, _ := strconv.Unquote(is.Path.Value)
+		name := path[strings.LastIndex(path, "/")+1:]
+		if is.Name != nil {
+			name = is.Name.Name
+		}
+		imp[name] = path
+	}
+	kind := ""
+	look := func(n ast.Node) {
+		if n == nil {
+			return
+		}
+		ast.Inspect(n, func(x ast.Node) bool {
+			if se, ok := x.(*ast.SelectorExpr); ok {
+				if id, ok := se.X.(*ast.Ident); ok && id.Obj == nil {
+					switch path := imp[id.Name]; {
+					case path == "sync" || path == "sync/atomic":
+						kind = "sync"
+					case path != "" && strings.Contains(strings.SplitN(path, "/", 2)[0], ".") && !strings.HasPrefix(path, modPath) && kind == "":
+						kind = "ext"
+					}
+				}
+			}
+			return true
+		})
+	}
+	if vs.Type != nil {
+		look(vs.Type)
+	}
+	for _, v := range vs.Values {
+		if cl, ok := v.(*ast.CompositeLit); ok {
+			look(cl.Type)
+		} else if ue, ok := v.(*ast.UnaryExpr); ok {
+			if cl, ok := ue.X.(*ast.CompositeLit); ok {
+				look(cl.Type)
+			}
+		}
+	}
+	return kind
+}
+
+// certainAlias: the value of the expression shares memory with its operand whatever the types are (address-of,
+// slicing) or is another alias. Element and field reads (x := m[k], x := v.f) yield copies for value types; without
+// type information they are not treated as write-through aliases (a write through them is then not reported; the
+// free-running race pass covers that case).
+func certainAlias(e ast.Expr) bool {
+	switch x := e.(type) {
+	case *ast.ParenExpr:
+		return certainAlias(x.X)
+	case *ast.UnaryExpr:
+		return x.Op == token.AND
+	case *ast.SliceExpr:
+		return true
+	case *ast.Ident:
+		return true
+	}
+	return false
+}
+
+// taintSources maps every tainted local to the package-level variables it certainly aliases.
+func taintSources(body *ast.BlockStmt, p *pkgInfo, imports map[string]*pkgInfo, tnt map[string]bool) map[string][]string {
+	src := map[string]map[string]bool{}
+	for changed := true; changed; {
+		changed = false
+		ast.Inspect(body, func(n ast.Node) bool {
+			as, ok := n.(*ast.AssignStmt)
+			if !ok {
+				return true
+			}
+			for i, l := range as.Lhs {
+				id, ok := l.(*ast.Ident)
+				if !ok || !tnt[id.Name] {
+					continue
+				}
+				var rhs ast.Expr
+				if len(as.Rhs) == len(as.Lhs) {
+					rhs = as.Rhs[i]
+				} else if len(as.Rhs) == 1 {
+					rhs = as.Rhs[0]
+				}
+				if rhs == nil || !certainAlias(rhs) {
+					continue
+				}
+				for _, m := range mentions(rhs, p, imports, tnt) {
+					var add []string
+					switch {
+					case strings.HasPrefix(m, "alias:"):
+						for v := range src[strings.TrimPrefix(m, "alias:")] {
+							add = append(add, v)
+						}
+					case strings.HasPrefix(m, "call:"):
+					default:
+						add = []string{m}
+					}
+					for _, v := range add {
+						if src[id.Name] == nil {
+							src[id.Name] = map[string]bool{}
+						}
+						if !src[id.Name][v] {
+							src[id.Name][v] = true
+							changed = true
+						}
+					}
+				}
+			}
+			return true
+		})
+	}
+	out := map[string][]string{}
+	for k, m := range src {
+		for v := range m {
+			out[k] = append(out[k], v)
+		}
+		sort.Strings(out[k])
+	}
+	return out
+}
+
+var readOnlyMethods = map[string]bool{"Len": true, "Cap": true, "String": true, "Bytes": true, "Error": true}
+
+// access classifies what a statement does to package-level data variables: definite writes (assignment to the
+// variable, one of its elements or fields, also through a local alias; ++/--; delete; copy into it; its address
+// passed to a call; a method call on it unless the method is a known reader or the variable is a synchronisation
+// object / third-party object) and reads (every other mention).
+func access(nodes []ast.Node, p *pkgInfo, imports map[string]*pkgInfo, tnt map[string]bool, src map[string][]string) (reads, writes []string) {
+	w := map[string]bool{}
+	r := map[string]bool{}
+	isData := func(ip *pkgInfo, v string) bool { return !ip.syncVar[v] }
+	// targets of a write through expression e
+	target := func(e ast.Expr) []string {
+		if ip, v := rootVar(e, p, imports); ip != nil {
+			if isData(ip, v) {
+				return []string{ip.name + "." + v}
+			}
+			return nil
+		}
+		if id, ok := root(e).(*ast.Ident); ok && tnt[id.Name] {
+			if _, bare := e.(*ast.Ident); bare {
+				return nil // re-binding the local itself
+			}
+			return src[id.Name]
+		}
+		return nil
+	}
+	for _, n := range nodes {
+		ast.Inspect(n, func(x ast.Node) bool {
+			switch s := x.(type) {
+			case *ast.FuncLit:
+				return false
+			case *ast.AssignStmt:
+				for _, l := range s.Lhs {
+					for _, t := range target(l) {
+						w[t] = true
+					}
+				}
+			case *ast.IncDecStmt:
+				for _, t := range target(s.X) {
+					w[t] = true
+				}
+			case *ast.RangeStmt:
+				if s.Tok == token.ASSIGN {
+					for _, e := range []ast.Expr{s.Key, s.Value} {
+						if e != nil {
+							for _, t := range target(e) {
+								w[t] = true
+							}
+						}
+					}
+				}
+			case *ast.CallExpr:
+				if id, ok := s.Fun.(*ast.Ident); ok && id.Obj == nil && len(s.Args) > 0 && (id.Name == "delete" || id.Name == "copy" || id.Name == "clear") {
+					for _, t := range target(s.Args[0]) {
+						w[t] = true
+					}
+					if len(target(s.Args[0])) == 0 {
+						if a, ok := s.Args[0].(*ast.Ident); ok && tnt[a.Name] {
+							for _, t := range src[a.Name] {
+								w[t] = true
+							}
+						}
+					}
+				}
+				if se, ok := s.Fun.(*ast.SelectorExpr); ok && !readOnlyMethods[se.Sel.Name] {
+					if ip, v := rootVar(se.X, p, imports); ip != nil && isData(ip, v) && !ip.extVar[v] {
+						// not pkg.Func: rootVar only resolves variables
+						w[ip.name+"."+v] = true
+					}
+				}
+				for _, a := range s.Args {
+					if ue, ok := a.(*ast.UnaryExpr); ok && ue.Op == token.AND {
+						for _, t := range target(ue.X) {
+							w[t] = true
+						}
+						if ip, v := varRef(ue.X, p, imports); ip != nil && isData(ip, v) {
+							w[ip.name+"."+v] = true
+						}
+					}
+				}
+			}
+			return true
+		})
+		for _, m := range mentions(n, p, imports, tnt) {
+			switch {
+			case strings.HasPrefix(m, "alias:"):
+				// reading a local that was loaded from package-level state is not an access to that state, unless the
+				// local certainly aliases it
+				for _, v := range src[strings.TrimPrefix(m, "alias:")] {
+					r[v] = true
+				}
+			case strings.HasPrefix(m, "call:"):
+			default:
+				r[m] = true
+			}
+		}
+	}
+	for v := range w {
+		writes = append(writes, v)
+		delete(r, v)
+	}
+	for v := range r {
+		// drop synchronisation objects
+		parts := strings.SplitN(v, ".", 2)
+		skip := false
+		for _, ip := range append([]*pkgInfo{p}, importList(imports)...) {
+			if ip.name == parts[0] && len(parts) == 2 && ip.syncVar[parts[1]] {
+				skip = true
+			}
+		}
+		if !skip {
+			reads = append(reads, v)
+		}
+	}
+	sort.Strings(reads)
+	sort.Strings(writes)
+	return
+}
+
+func importList(m map[string]*pkgInfo) []*pkgInfo {
+	var out []*pkgInfo
+	for _, p := range m {
+		out = append(out, p)
+	}
+	return out
+}
+
 func ownExprs(st ast.Stmt) []ast.Node {
 	switch s := st.(type) {
 	case *ast.IfStmt:
@@ -577,6 +840,9 @@ func hookCall(id int) ast.Stmt {
 	}}
 }
 
+// curSrc: alias sources of the function being instrumented
+var curSrc map[string][]string
+
 func instrList(fset *token.FileSet, list []ast.Stmt, p *pkgInfo, imports map[string]*pkgInfo, tnt map[string]bool, next *int, pts *[]point, file string, ins *int) []ast.Stmt {
 	var out []ast.Stmt
 	for _, st := range list {
@@ -588,7 +854,8 @@ func instrList(fset *token.FileSet, list []ast.Stmt, p *pkgInfo, imports map[str
 			id := *next
 			*next++
 			*ins++
-			*pts = append(*pts, point{ID: id, Pkg: p.imp, File: filepath.Base(file), Line: fset.Position(st.Pos()).Line, Vars: strings.Join(ms, ",")})
+			rd, wr := access(ownExprs(st), p, imports, tnt, curSrc)
+			*pts = append(*pts, point{ID: id, Pkg: p.imp, File: filepath.Base(file), Line: fset.Position(st.Pos()).Line, Vars: strings.Join(ms, ","), Reads: rd, Writes: wr})
 			out = append(out, hookCall(id))
 		}
 		instrNested(fset, st, p, imports, tnt, next, pts, file, ins, len(ms) > 0)
@@ -612,7 +879,8 @@ func instrNested(fset *token.FileSet, st ast.Stmt, p *pkgInfo, imports map[strin
 			id := *next
 			*next++
 			*ins++
-			*pts = append(*pts, point{ID: id, Pkg: p.imp, File: filepath.Base(file), Line: fset.Position(b.Pos()).Line, Vars: "loop-header"})
+			rd, wr := access(ownExprs(st), p, imports, tnt, curSrc)
+			*pts = append(*pts, point{ID: id, Pkg: p.imp, File: filepath.Base(file), Line: fset.Position(b.Pos()).Line, Vars: "loop-header", Reads: rd, Writes: wr})
 			b.List = append([]ast.Stmt{hookCall(id)}, b.List...)
 		}
 	}
